@@ -203,6 +203,8 @@ class d3TimeScaleMilliseconds(object):
         pass
 
     def range(self, start, stop, step):
+        # range() needs an integer step; sub-millisecond steps become 1 ms
+        step = max(1, int(math.ceil(step)))
         return list(
             map(
                 milli2dt,
